@@ -167,8 +167,10 @@ def correspondence(ctx):
         "no_orphans_b W2 [] d6_sys", "no_orphans_b W1 [s_o] d6b_sys",
         "match open_db_now false 100 (db_at 100 d6_history 0) with Ok _ => true | _ => false end"])
     want = {"d6": verdicts[0], "d6b": verdicts[1], "d13": verdicts[2]}
-    seen = {"d6": "true", "d6b": "true", "d13": "true"}
+    seen = {}
     for case, ref, pr in _points(results):
+        if case["name"].startswith("witness-") and pr["crashed"]:
+            seen.setdefault(case["name"][len("witness-"):], "true")
         for f in pr["fails"]:
             if f["signature"] == cc.SIG_D6 and case["name"] == "witness-d6":
                 seen["d6"] = "false"
@@ -176,7 +178,7 @@ def correspondence(ctx):
                 seen["d6b"] = "false"
             if f["signature"] == cc.SIG_D13 and case["name"] == "witness-d13":
                 seen["d13"] = "false"
-    for key in want:
+    for key in seen:
         if want[key] != seen[key]:
             ctx.add_failure("correspondence", f"witness-{key}", f"E3:witness-verdict:{key}",
                             f"the model says '{want[key]}' for the {key} witness (no orphan / open succeeds) but the "
